@@ -375,13 +375,31 @@ def r10_or_pattern_mut(src, item, ed, opts):
         ed.count("R10")
 
 
+def pick_loop(src, loops, sp, what):
+    """a loop named by the sidecar: by ordinal (`n`), or by the text of what a `for` iterates over
+    (`over = "compiler.include_calls"`; whitespace-free containment).  By text, a loop that is gone is simply
+    skipped (returns None): what is left of the function is judged as it stands."""
+    if "over" in sp:
+        want = sp["over"].replace(" ", "")
+        c = [l for l in loops if l["loop_kind"] == "for" and want in re.sub(r"\s+", "", src.text(*l["expr"]))]
+        if not c:
+            if sp.get("required"):
+                raise LostAnchor(f"for-loop over `{sp['over']}` of {what}")
+            return None
+        return c[sp.get("n", 0)] if sp.get("n", 0) < len(c) else None
+    return loops[sp["n"]] if sp["n"] < len(loops) else None
+
+
+
 def r12_for_mut(src, item, ed, opts):
     """`for PAT in &mut V { B }` -> index loop (sites named: for_mut=[{n=<loop ordinal>, k="vx_k"}])"""
     loops = nodes_of(item, "loop")
     for sp in opts.get("for_mut", []):
-        n = loops[sp["n"]] if sp["n"] < len(loops) else None
+        n = pick_loop(src, loops, sp, item["path"])
+        if n is None and "over" in sp:
+            continue
         if n is None or n["loop_kind"] != "for":
-            raise LostAnchor(f"for-loop #{sp['n']} of {item['path']}")
+            raise LostAnchor(f"for-loop #{sp.get('n')} of {item['path']}")
         ex = src.text(*n["expr"]).strip()
         if not ex.startswith("&mut "):
             raise Unsupported(f"R12 expects `for .. in &mut V`, found `{ex}`")
@@ -402,9 +420,11 @@ def r21_for_rev(src, item, ed, opts):
     """`for X in V.iter().rev() { B }` -> reverse index loop (for_rev=[{n=<loop ordinal>, k="idx"}])"""
     loops = nodes_of(item, "loop")
     for sp in opts.get("for_rev", []):
-        n = loops[sp["n"]] if sp["n"] < len(loops) else None
+        n = pick_loop(src, loops, sp, item["path"])
+        if n is None and "over" in sp:
+            continue
         if n is None or n["loop_kind"] != "for":
-            raise LostAnchor(f"for-loop #{sp['n']} of {item['path']}")
+            raise LostAnchor(f"for-loop #{sp.get('n')} of {item['path']}")
         ex = src.text(*n["expr"]).strip()
         m = re.fullmatch(r"(.+)\.iter\(\)\s*\.rev\(\)", ex, re.S)
         if not m:
@@ -434,9 +454,11 @@ def r22_for_enumerate(src, item, ed, opts):
     (for_enum=[{n=<loop ordinal>}])"""
     loops = nodes_of(item, "loop")
     for sp in opts.get("for_enum", []):
-        n = loops[sp["n"]] if sp["n"] < len(loops) else None
+        n = pick_loop(src, loops, sp, item["path"])
+        if n is None and "over" in sp:
+            continue
         if n is None or n["loop_kind"] != "for":
-            raise LostAnchor(f"for-loop #{sp['n']} of {item['path']}")
+            raise LostAnchor(f"for-loop #{sp.get('n')} of {item['path']}")
         ex = src.text(*n["expr"]).strip()
         m = re.fullmatch(r"(.+?)(\[(.+)\.\.\])?\.iter\(\)\s*\.enumerate\(\)", ex, re.S)
         if not m:
@@ -464,9 +486,11 @@ def r27_for_vec(src, item, ed, opts):
     (for_vec=[{n=<loop ordinal>, k="vx_i"}])"""
     loops = nodes_of(item, "loop")
     for sp in opts.get("for_vec", []):
-        n = loops[sp["n"]] if sp["n"] < len(loops) else None
+        n = pick_loop(src, loops, sp, item["path"])
+        if n is None and "over" in sp:
+            continue
         if n is None or n["loop_kind"] != "for":
-            raise LostAnchor(f"for-loop #{sp['n']} of {item['path']}")
+            raise LostAnchor(f"for-loop #{sp.get('n')} of {item['path']}")
         v = src.text(*n["expr"]).strip()
         if not re.fullmatch(r"[A-Za-z_][\w\.]*", v):
             raise Unsupported(f"R27 expects `for X in <vec variable>`, found `{v}`")
@@ -518,9 +542,11 @@ def r30_for_map(src, item, ed, opts):
     increment first so that `continue` keeps its meaning (for_map=[{n=<loop ordinal>, entries="vx_map_entries", k="vx_j"}])"""
     loops = nodes_of(item, "loop")
     for sp in opts.get("for_map", []):
-        n = loops[sp["n"]] if sp["n"] < len(loops) else None
+        n = pick_loop(src, loops, sp, item["path"])
+        if n is None and "over" in sp:
+            continue
         if n is None or n["loop_kind"] != "for":
-            raise LostAnchor(f"for-loop #{sp['n']} of {item['path']}")
+            raise LostAnchor(f"for-loop #{sp.get('n')} of {item['path']}")
         ex = src.text(*n["expr"]).strip()
         k = sp.get("k", "vx_j")
         es = sp.get("es", "vx_es")
@@ -528,7 +554,7 @@ def r30_for_map(src, item, ed, opts):
         if not ex.startswith("&"):
             # by value: the map is consumed; its entries come out each exactly once in an unspecified
             # order, so taking them from the back of the entry vector is as good as any other order
-            if not sp.get("by_value") or not re.fullmatch(r"[A-Za-z_]\w*", ex):
+            if not sp.get("by_value") or not re.fullmatch(r"[A-Za-z_][\w\.]*", ex):
                 raise Unsupported(f"R30 expects `for (k, v) in &M` (or by_value with a plain variable), found `{ex}`")
             for mm in item["nodes"]:
                 if mm["kind"] in ("break", "continue") and inside(mm, n["body"]):
@@ -550,9 +576,11 @@ def r32_for_into_iter_rev(src, item, ed, opts):
     `break`/`continue` (for_pop=[{n=<loop ordinal>}])"""
     loops = nodes_of(item, "loop")
     for sp in opts.get("for_pop", []):
-        n = loops[sp["n"]] if sp["n"] < len(loops) else None
+        n = pick_loop(src, loops, sp, item["path"])
+        if n is None and "over" in sp:
+            continue
         if n is None or n["loop_kind"] != "for":
-            raise LostAnchor(f"for-loop #{sp['n']} of {item['path']}")
+            raise LostAnchor(f"for-loop #{sp.get('n')} of {item['path']}")
         ex = src.text(*n["expr"]).strip()
         m = re.fullmatch(r"([A-Za-z_][\w\.]*)(?:\.into_iter\(\))?\s*(\.rev\(\))?", ex, re.S)
         if not m:
@@ -646,6 +674,13 @@ def r24_call_shim(src, item, ed, opts):
                         env["recv_method"] = rn["method"]
                         for j, a in enumerate(rn["args"]):
                             env[f"recv_arg{j}"] = src.text(*a["range"])
+                        # one level further (`m.entry(k).or_default().extend(v)`)
+                        for rn2 in nodes_of(item, "methodcall"):
+                            if list(rn2["range"]) == list(rn["receiver"]):
+                                env["recv_recv_recv"] = src.text(*rn2["receiver"])
+                                env["recv_recv_method"] = rn2["method"]
+                                for j, a in enumerate(rn2["args"]):
+                                    env[f"recv_recv_arg{j}"] = src.text(*a["range"])
             elif kind == "call":
                 for j, a in enumerate(n["args"]):
                     env[f"arg{j}"] = src.text(*a["range"])
@@ -965,10 +1000,15 @@ def extract_fn(src, spec, unit_rules):
 
     loops = nodes_of(item, "loop")
     for ls in spec.get("loop", []):
-        k = ls["n"]
-        if k >= len(loops):
-            raise LostAnchor(f"loop #{k} of {spec['path']} (function has {len(loops)} loops)")
-        n = loops[k]
+        k = ls.get("n")
+        if "over" in ls:
+            n = pick_loop(src, loops, ls, spec["path"])
+            if n is None:
+                continue
+        else:
+            if k >= len(loops):
+                raise LostAnchor(f"loop #{k} of {spec['path']} (function has {len(loops)} loops)")
+            n = loops[k]
         if ls.get("kind") and ls["kind"] != n["loop_kind"]:
             raise LostAnchor(f"loop #{k} of {spec['path']} is a `{n['loop_kind']}`, sidecar expects `{ls['kind']}`")
         if ls.get("before"):
@@ -1118,10 +1158,15 @@ def extract_arm(src, spec, unit_rules):
             ed.insert(e, "\n" + at["text"].strip() + "\n", "ghost")
     loops = nodes_of(item, "loop")
     for ls in spec.get("loop", []):
-        k = ls["n"]
-        if k >= len(loops):
-            raise LostAnchor(f"loop #{k} of arm {spec['arm']}")
-        n = loops[k]
+        k = ls.get("n")
+        if "over" in ls:
+            n = pick_loop(src, loops, ls, spec["path"])
+            if n is None:
+                continue
+        else:
+            if k >= len(loops):
+                raise LostAnchor(f"loop #{k} of arm {spec['arm']}")
+            n = loops[k]
         if ls.get("before"):
             ed.insert(n["range"][0], ls["before"].strip() + "\n", "ghost")
         if ls.get("iter") and n["loop_kind"] == "for":
@@ -1205,7 +1250,9 @@ def extract_closure(src, spec, unit_rules):
         if not clos or not clos[0]["body_is_block"]:
             raise Unsupported("R31 expects a block-bodied closure")
         cl = clos[0]
-    if cl["inputs"]:
+    if cl["inputs"] and not spec.get("with_inputs"):
+        # a closure WITH parameters: they become parameters of the function like the captures (the sidecar's
+        # parameter list names and types all of them; `with_inputs = true` acknowledges it)
         raise Unsupported("R31 expects a closure without parameters")
     body = cl["body"]
     is_block = cl["body_is_block"]
@@ -1229,10 +1276,15 @@ def extract_closure(src, spec, unit_rules):
         r24_call_shim(src, item, ed, spec)
     loops = nodes_of(item, "loop")
     for ls in spec.get("loop", []):
-        kk = ls["n"]
-        if kk >= len(loops):
-            raise LostAnchor(f"loop #{kk} of closure #{k} of {spec['path']}")
-        n = loops[kk]
+        kk = ls.get("n")
+        if "over" in ls:
+            n = pick_loop(src, loops, ls, spec["path"])
+            if n is None:
+                continue
+        else:
+            if kk >= len(loops):
+                raise LostAnchor(f"loop #{kk} of closure #{k} of {spec['path']}")
+            n = loops[kk]
         if ls.get("before"):
             ed.insert(n["range"][0], ls["before"].strip() + "\n", "ghost")
         if ls.get("iter") and n["loop_kind"] == "for":
